@@ -45,7 +45,7 @@ THEOREMS = [
     # round 5: API level (argument forms, flags, refusals) and end-to-end statements about the generated definitions
     'C02.dvectApi_eq_arr', 'C02.dvectApi_ok_iff', 'C02.dvectApi_type_iff', 'C02.dvectApi_flag_forms', 'C02.dmag2Api_eq',
     'C02.api_dvect_end_to_end', 'C02.api_dmag_end_to_end', 'C02.displacement_ok_iff', 'C02.api_displacement_end_to_end',
-    'C02.api_system_end_to_end', 'C02.pbcSetter_ok_iff', 'C02.dvectApi_flat_eq_rows', 'C02.dvectApi_error_class',
+    'C02.api_system_end_to_end', 'C02.pbcSetter_ok_iff', 'C02.dvectApi_flat_eq_rows', 'C02.dvectApi_error_class', 'C02.dvectApi_value_iff',
     'C02.World.disp_source', 'C02.World.sysDvect_source', 'C02.source_true_nearest_ortho', 'C02.source_true_nearest_tilted',
 ]
 PARTIAL = {}
